@@ -363,6 +363,9 @@ def validate_model(orf, db, cons, sql_sel):
     return out
 
 
+NOTES3_MS = int(os.environ.get("VERIF_C03_NOTES3_MS", "90000"))
+
+
 def _worker(args):
     tier, idx, timeout_ms, excl_ids = args
     name, orf = sp.shapes(tier)[idx]
@@ -371,7 +374,21 @@ def _worker(args):
     if excl_ids:
         exclude = lambda db: z3.And(*[z3.Not(sp.KNOWN_PREDICATES[i](orf, db)) for i in excl_ids if sp.KNOWN_PREDICATES[i](orf, db) is not None] or [z3.BoolVal(True)])  # noqa: E731
     try:
-        return decide(name, orf, 2, timeout_ms, sizes=sizes, exclude=exclude)
+        # deeper bound first: 3 note rows (the other tables as before); a 3-row database subsumes every 2-row one through
+        # the presence bits. Only when z3 does not decide it inside its share of the budget is the 2-note bound used.
+        if name.startswith("link-"):
+            # link shapes (97 converter runs each, OR-ed under their fork bits) take ~400 s with 3 note rows: they stay at 2
+            r = decide(name, orf, 2, timeout_ms, sizes=sizes, exclude=exclude)
+            r["bound_notes"] = 2
+            return r
+        r = decide(name, orf, 2, min(timeout_ms, NOTES3_MS), sizes=dict(sizes or {}, note=3), exclude=exclude)
+        r["bound_notes"] = 3
+        if r["status"] == "inconclusive":
+            r3 = r
+            r = decide(name, orf, 2, timeout_ms, sizes=sizes, exclude=exclude)
+            r["bound_notes"] = 2
+            r["detail"] = "%s; the 3-note query was inconclusive after %.0f s (%s)" % (r["detail"], r3["secs"], r3["detail"])
+        return r
     except Exception as e:  # noqa
         import traceback
         return {"name": name, "status": "error", "detail": "%s: %s %s" % (type(e).__name__, e, traceback.format_exc()[-400:]), "secs": 0.0}
@@ -394,7 +411,8 @@ def main():
     control(rep)
     for (name, orf), r in zip(shapes, results):
         if r["status"] == "unsat":
-            rec = rep.add("equiv:" + name, "z3", "unsat", "SQL == meaning on every database within the bound (%s)" % r["detail"], r["secs"], family="equiv")
+            rec = rep.add("equiv:" + name, "z3", "unsat", "SQL == meaning on every database within the bound, %d note rows (%s)" % (r.get("bound_notes", 2), r["detail"]), r["secs"], family="equiv")
+            rec["bound_note_rows"] = r.get("bound_notes", 2)
             val = r.get("validation") or []
             rec["model_validated_on_sqlite"] = [v["result"] for v in val]
             validated += sum(1 for v in val if v["result"] == "agrees")
@@ -471,7 +489,7 @@ def describe(rep, shapes, tier):
     rep.describe(
         explanation=(
             "For each of %d filter shapes the real to_sql_select builds its statement; the statement's clause tree is interpreted "
-            "over a symbolic database (2 rows per table, every column a z3 constant, presence bits, SQL three-valued logic, joins "
+            "over a symbolic database (3 note rows, 2 rows in every other table, every column a z3 constant, presence bits, SQL three-valued logic, joins "
             "expanded over row tuples, IN / NOT IN over sub-select rows, LIKE as a regex) and compared, for every note row, with the "
             "meaning of the filter written from the statement. Helpers that query the session during conversion run against a stub "
             "session whose Python-level decisions are fork bits (one converter run per reachable assignment; the trees are OR-ed under "
@@ -483,10 +501,11 @@ def describe(rep, shapes, tier):
                "day numbers; validated by replaying every counter-database on real SQLite",
                "well-formedness of the database = the invariants of a real index (unique ids / paths / names / ZIDs, every note on one page, "
                "valid foreign keys of property links, status and priority null together)"],
-        bounds=["2 rows per table (link shapes: 1 property row, 1 property link)", "strings: printable ASCII, length <= %d" % sp.MAXLEN,
+        bounds=["3 note rows and 2 rows in every other table (link shapes: 2 note rows, 1 property row, 1 property link); a shape whose 3-note query z3 does not "
+                "decide in %d s falls back to 2 note rows - each condition records its bound_note_rows" % (NOTES3_MS // 1000), "strings: printable ASCII, length <= %d" % sp.MAXLEN,
                 "property values of the filter's key have the filter's value type (mixed-type comparisons are not judged)",
                 "filter literals concrete (they steer Python branches in the converter): see the list of shapes in coverage.conditions"],
-        outside=["more rows per table; non-ASCII text; letter case of page names in f= (folded on both sides, not judged)",
+        outside=["more than 3 notes, more than 2 rows in the other tables (3 rows in EVERY table was probed and does not finish); non-ASCII text; letter case of page names in f= (folded on both sides, not judged)",
                  "SQLRepo.get_notes_by_query's mapping of rows back to domain notes; SQLite itself and SQLAlchemy's SQL rendering (replay only)"])
 
 
